@@ -442,6 +442,16 @@ def generate(ctx):
             ctx.run("seed_path", [curve, seed, 1, [i]], "two-leading-zeros-child")
             ctx.run("seed_path", [curve, seed, 1, [i, HARD]], "two-leading-zeros-parent")
 
+    # -- directed: PUBLIC derivation from parents whose compressed public key has a zero first X byte (02 00.. / 03 00..)
+    for curve in (0, 1):
+        for _ in range(ctx.n(2, 10)):
+            k = rng.randrange(1, R.WEIER[curve].n)
+            while R.pub_bytes(curve, k.to_bytes(32, "big"))[1] != 0:
+                k = (k + 1) % R.WEIER[curve].n or 1
+            for i in (0, 7, rng.randrange(HARD)):
+                ctx.run("priv_path", [curve, [], k.to_bytes(32, "big"), 0, 0, rb(rng, 32), bytes(4), 1, 0, 0, [i]],
+                        "pub-derivation-leading-zero-x")
+
     # -- the published SLIP-0010 retry vector, privately and publicly, and the no-retry model on it
     ctx.run("seed_path", [1, F1_SEED, 1, F1_PATH], "slip10-retry-vector")
     ctx.run("seed_child_keys", [1, F1_SEED, F1_PATH], "slip10-retry-vector")
